@@ -22,6 +22,7 @@ type Features struct {
 	// constructs the reference does not define (used by C04/C23 only, never with R)
 	MixedWrites, StringNumberCompare, NonBoolCond, Unary bool
 	Histograms, HistIncr                                 bool // histogram declarations (no reference semantics in R); ++ on a histogram
+	QuotedKeys, HostileStrings, SmallBuckets             bool // formatter-relevant spellings (C23)
 	BoolInArith                                          bool // a comparison used as an integer operand (rejected by the pinned compiler)
 	NoUnaryOnBool                                        bool // with Unary: ~ only on Int operands
 	NoFloatIntoInt                                       bool // with MixedWrites: only Int values into Float metrics
@@ -165,6 +166,10 @@ func (g *G) genDecls() {
 		case m.Kind == "histogram":
 			m.Ty = TFloat
 			m.Buckets = pick(g, "buckets", [][]float64{{1, 2, 4}, {0.5, 10}, {0, 1, 100}})
+			if g.F.SmallBuckets && g.chance("smallbuckets", 40) {
+				m.Buckets = pick(g, "sbuckets", [][]float64{{0.0000001, 0.5}, {0.00000025, 0.0000005, 1}, {1e-9, 1e9}, {0.001, 0.002}})
+				g.class("small-bucket-boundaries")
+			}
 		case g.F.Floats && g.chance("float", 30):
 			m.Ty = TFloat
 		default:
@@ -173,7 +178,12 @@ func (g *G) genDecls() {
 		if g.F.Dimensioned && g.chance("dim", 45) {
 			nk := 1 + g.intn("nkeys", 2)
 			for k := 0; k < nk; k++ {
-				m.Keys = append(m.Keys, fmt.Sprintf("k%d", k))
+				key := fmt.Sprintf("k%d", k)
+				if g.F.QuotedKeys && g.chance("quotedkey", 25) {
+					key = pick(g, "qkey", []string{"a-b", "x.y", "with space", "9lives"}) + fmt.Sprint(k)
+					g.class("quoted-key")
+				}
+				m.Keys = append(m.Keys, key)
 			}
 			if g.F.Limit && g.chance("limit", 15) {
 				m.Limit = 1 + g.intn("limitn", 50)
@@ -519,6 +529,10 @@ func (g *G) strLeaf(d int) *Expr {
 				return g.mread(pick(g, "smetric", ms), d+1)
 			}
 		}
+	}
+	if g.F.HostileStrings && g.chance("hostilestr", 30) {
+		g.class("string-with-quote-or-backslash")
+		return &Expr{Op: "lit", Ty: TString, S: pick(g, "hslit", []string{"a\"b", "\"", "x\\y", "tab\\t", "q\"\"q", "C:\\dir\\"})}
 	}
 	return &Expr{Op: "lit", Ty: TString, S: pick(g, "slit", []string{"a", "foo", "Foo", "x y", "", "12", "0x1f", "GET"})}
 }
